@@ -77,8 +77,11 @@ func c05GenTyped(g *Gen, typ string, depth int) c05Doc {
 	next := 0
 	freshID := func() string {
 		s := distinctPool[perm[next%len(perm)]]
-		if next >= len(perm) {
-			s = fmt.Sprintf("https://example.com/extra/%d", next)
+		if next >= len(perm) || g.Chance(1, 6) {
+			// (an absolute URL in a presentation a URL library would print differently is kept as the document has it)
+			forms := []string{"https://example.com/extra/%d", "HTTPS://Example.COM/Extra/%d", "https://example.com/extra/%d#", "https://example.com:443/extra/%d",
+				"https://example.com/ex/../extra/./%d", "https://example.com//extra//%d/"}
+			s = fmt.Sprintf(forms[g.Intn(len(forms))], 100+next)
 		}
 		next++
 		return s
@@ -185,16 +188,22 @@ func c05GenTyped(g *Gen, typ string, depth int) c05Doc {
 			}
 			fv.SetInt(int64(secs) * int64(time.Second))
 		case f.Type.Kind() == reflect.Uint:
-			n := 1 + g.Intn(500)
+			n := uint64(1 + g.Intn(500))
+			if g.Chance(1, 4) { // beyond what a float64 holds exactly
+				n = []uint64{1<<53 + 1, 1<<62 + 3, 4000000001, 1<<63 - 1}[g.Intn(4)]
+			}
 			m[term] = n
-			fv.SetUint(uint64(n))
+			fv.SetUint(n)
 		case f.Type.Kind() == reflect.Int64:
-			n := g.Intn(200) - 100
+			n := int64(g.Intn(200) - 100)
 			if n == 0 {
 				n = 3
 			}
+			if g.Chance(1, 4) {
+				n = []int64{1<<53 + 1, -(1<<53 + 1), 1<<62 + 3, -(1<<62 + 3), 9007199254740993, 1<<63 - 1}[g.Intn(6)]
+			}
 			m[term] = n
-			fv.SetInt(int64(n))
+			fv.SetInt(n)
 		case f.Type.Kind() == reflect.Float64:
 			x := float64(g.Intn(360000000)-180000000) / 1e6 // six decimals: more digits than a float32 holds
 			if x == 0 {
